@@ -344,6 +344,17 @@ def _poll_one_post(ctx):
                   z3.Select(ent.col("attempts"), r) < z3.Int("queue_max_attempts"),
                   z3.Or(z3.Select(ent.null("locked_until"), r), z3.Select(ent.col("locked_until"), r) < ctx.extra["last_now"](I)))
     goals.append(("selected-row-was-deliverable", z3.Implies(returned, pred)))
+    # and the other way round (nothing lost: a message whose holder died is delivered again): every row that is due, under the
+    # limit and unlocked -- or whose lock has lapsed -- satisfies the candidate query
+    if sel and sel[0].data.get("cand"):
+        rv, cond = sel[0].data["cand"]
+        r0 = fresh_int("anyrow")
+        nowt = sel[0].data.get("now")  # the instant the candidate query ran at
+        nowt = nowt if nowt is not None else ctx.extra["last_now"](I)
+        due = z3.And(z3.Select(ent.exists, r0), z3.Not(z3.Select(ent.null("deliver_at"), r0)), z3.Select(ent.col("deliver_at"), r0) <= nowt,
+                     z3.Select(ent.col("attempts"), r0) < z3.Int("queue_max_attempts"),
+                     z3.Or(z3.Select(ent.null("locked_until"), r0), z3.Select(ent.col("locked_until"), r0) < nowt))
+        goals.append(("every-deliverable-row-is-a-candidate", z3.Implies(due, z3.substitute(cond, (rv, r0)))))
     goals.append(("other-rows-untouched", _frame(ctx, QT, except_key=r)))
     goals.append(("payload-type-untouched", z3.And(*[z3.Select(cur.cols[c], r) == z3.Select(ent.col(c), r) for c in ("payload", "message_type", "message_id", "deliver_at", "max_attempts")])))
     goals.append(("commits-claim", z3.BoolVal(len(_commits(ctx)) >= 1)))
